@@ -108,6 +108,26 @@ pub fn check_type<T: DeserializeOwned + Serialize + std::fmt::Debug>(ty: &str, v
     st.class("respelt");
     st.sample(|| json!({"type": ty, "serialized": plain, "respelt": r.text}));
     check_routes::<T>(ty, "re-spelt text", &r.text, &sd, true, st)?;
+    // perturbed documents: the same tree with a few structural edits (arrays rewritten as
+    // positional tables in any key order, entries reordered, a scalar of another type, a missing or
+    // an extra key, a table rewritten as the array of its values). Decoding may fail - but all the
+    // routes that succeed must agree.
+    for _ in 0..2 {
+        let mut pm = m.clone();
+        let edits = perturb(&mut pm, t);
+        if edits.is_empty() {
+            continue;
+        }
+        let g = relayout(&pm, t);
+        let mut cfg2 = cfg.clone();
+        cfg2.decor = 0;
+        let r2 = render(&g, t, &cfg2);
+        st.class("perturbed");
+        for e in &edits {
+            st.class(&format!("perturb.{e}"));
+        }
+        check_routes::<T>(ty, "a perturbed document", &r2.text, &sd, false, st)?;
+    }
     // the single-value deserializers on the value's inline form
     if !has_dt {
         if let Ok(val) = toml::Value::try_from(v) {
@@ -145,6 +165,89 @@ pub fn check_type<T: DeserializeOwned + Serialize + std::fmt::Debug>(ty: &str, v
         }
     }
     Ok(())
+}
+
+/// a few random structural edits on a plain tree; returns their names
+fn perturb(root: &mut crate::model::Tbl, t: &mut Tape) -> Vec<&'static str> {
+    use crate::model::{Tbl, TblKind};
+    let mut edits = vec![];
+    fn walk(tb: &mut Tbl, t: &mut Tape, edits: &mut Vec<&'static str>, budget: &mut usize) {
+        // reorder the entries of this table
+        if *budget > 0 && tb.entries.len() >= 2 && t.chance(1, 6) {
+            let i = t.below(tb.entries.len());
+            let j = t.below(tb.entries.len());
+            tb.entries.swap(i, j);
+            edits.push("reorder");
+            *budget -= 1;
+        }
+        if *budget > 0 && !tb.entries.is_empty() && t.chance(1, 12) {
+            let i = t.below(tb.entries.len());
+            tb.entries.remove(i);
+            edits.push("drop-key");
+            *budget -= 1;
+        }
+        if *budget > 0 && t.chance(1, 12) && tb.get("zz-extra").is_none() {
+            tb.entries.push(("zz-extra".into(), Node::Int(7)));
+            edits.push("extra-key");
+            *budget -= 1;
+        }
+        for (_, n) in tb.entries.iter_mut() {
+            if *budget == 0 {
+                return;
+            }
+            match n {
+                Node::Array(a) if !a.is_empty() && t.chance(1, 4) => {
+                    // positional table, keys in a random order
+                    let mut pairs: Vec<(String, Node)> = a.iter().cloned().enumerate().map(|(i, v)| (i.to_string(), v)).collect();
+                    for i in (1..pairs.len()).rev() {
+                        let j = t.below(i + 1);
+                        pairs.swap(i, j);
+                    }
+                    let mut nt = Tbl::new(TblKind::Any);
+                    nt.entries = pairs;
+                    *n = Node::Table(nt);
+                    edits.push("array-as-positional-table");
+                    *budget -= 1;
+                }
+                Node::Table(x) if !x.entries.is_empty() && t.chance(1, 10) => {
+                    *n = Node::Array(x.entries.iter().map(|e| e.1.clone()).collect());
+                    edits.push("table-as-array");
+                    *budget -= 1;
+                }
+                Node::Table(x) => walk(x, t, edits, budget),
+                Node::Array(a) => {
+                    for e in a.iter_mut() {
+                        if let Node::Table(x) = e {
+                            walk(x, t, edits, budget);
+                        } else if *budget > 0 && t.chance(1, 10) {
+                            let new = match &*e {
+                                Node::Int(i) => Node::Str(i.to_string()),
+                                Node::Str(_) => Node::Int(3),
+                                o => o.clone(),
+                            };
+                            *e = new;
+                            edits.push("scalar-type");
+                            *budget -= 1;
+                        }
+                    }
+                }
+                Node::Int(i) if t.chance(1, 12) => {
+                    *n = Node::Str(i.to_string());
+                    edits.push("scalar-type");
+                    *budget -= 1;
+                }
+                Node::Str(_) if t.chance(1, 14) => {
+                    *n = Node::Int(5);
+                    edits.push("scalar-type");
+                    *budget -= 1;
+                }
+                _ => {}
+            }
+        }
+    }
+    let mut budget = 1 + t.below(3);
+    walk(root, t, &mut edits, &mut budget);
+    edits
 }
 
 /// documents decoded into toml::Value / toml::Table through every route
@@ -237,7 +340,7 @@ pub fn run(args: Args) -> ! {
     finish_run(&mut rep, "types", run);
     let run = run_tape("C13.documents", &prop_docs, 3000, args.tier.pick(150_000, 2_000_000), args.seed, workers());
     finish_run(&mut rep, "documents", run);
-    for c in ["type.Dates", "type.Nested", "has-datetime", "respelt", "document", "route-ok"] {
+    for c in ["type.Dates", "type.Nested", "has-datetime", "respelt", "perturbed", "perturb.array-as-positional-table", "perturb.reorder", "document", "route-ok"] {
         rep.require_class(c);
     }
     rep.finish()
